@@ -5,13 +5,17 @@
    Go program is an order of the trace; "call" events are logged before the call, "return" events after.
    Every condition below holds for every trace of the unchanged code (the schedule is not controlled).
 
-   [check_case] = the trace is a behaviour of Model/Workers.v (jobs strictly one after the other, a job's
-   tasks start only after the previous job was closed and all its tasks ended, at most [nw] tasks open, a
-   single worker / the serial pool skip exactly the tasks after the first failure, shutdown rules).
+   [check_case] = [check_stmts] && [lts_accepts]:
+   [lts_accepts]: TRACE INCLUSION — the observed trace of a parallel pool is the visible part of a run of the LTS
+   Model/Workers.v (the acceptor Model/WorkersAccept.v interleaves the unobservable labels and replays the LTS
+   label by label; Proofs/WorkersAccept_proofs.v: an accepted trace is a trace of the LTS, [accepts_sound]);
+   [check_stmts]: the log-level statements the theorems prove, evaluated on the trace (jobs strictly one after
+   the other, a job's tasks start only after the previous job was closed and all its tasks ended, at most [nw]
+   tasks open, a single worker / the serial pool skip exactly the tasks after the first failure, shutdown rules).
    [spec_ok] = the property text evaluated on the trace. *)
 From Coq Require Import List NArith Bool Arith.
 Import ListNotations.
-From HV Require Import Lib.Harness Model.Workers.
+From HV Require Import Lib.Harness Model.Workers Model.WorkersAccept.
 
 Inductive ev :=
 | ENewCall (j : nat)            (* about to call NewJob for input job j *)
@@ -24,7 +28,8 @@ Inductive ev :=
 | EStopCall | EStopRet
 | ESeenShut.                    (* somebody saw shouldShutdown = true *)
 
-Record case := mk { c_nw : nat; c_serial : bool; c_jobs : list (list bool); c_evs : list ev; c_hang : bool }.
+Record case := mk { c_nw : nat; c_serial : bool; c_jobs : list (list bool); c_evs : list ev; c_hang : bool;
+                    c_mj : nat (* maxJobs, the capacity of the pool's queue *) }.
 
 Fixpoint idx_from (p : ev -> bool) (i : nat) (l : list ev) : option nat :=
   match l with [] => None | e :: l' => if p e then Some i else idx_from p (S i) l' end.
@@ -175,13 +180,33 @@ Definition common (c : case) : bool :=
   (* Stop returned if it was called *)
   Nat.eqb (cnt is_stopret (c_evs c)) (cnt is_stopcall (c_evs c)).
 
-Definition check_case (c : case) : bool :=
+Definition check_stmts (c : case) : bool :=
   let nj := length (c_jobs c) in
   let exact := c_serial c || Nat.eqb (c_nw c) 1 in
   common c &&
   forallb (fun j => negb (accepted j (c_evs c)) || job_ok exact j (nth j (c_jobs c) []) (c_evs c)) (seq 0 nj) &&
   (c_serial c || (jobs_sequential true nj (c_evs c) && shutdown_ok nj (c_evs c))) &&
   conc_ok (if c_serial c then 1 else c_nw c) 0 (c_evs c).
+
+(* ---- trace inclusion in the LTS ------------------------------------------------------------------------ *)
+Definition to_oev (e : ev) : oev :=
+  match e with
+  | ENewCall j => ONewCall j | ENew j ok => ONew j ok | EGo j i => OGo j i | EDoneCall j => ODoneCall j
+  | EBeg j i => OBeg j i | EEnd j i ok => OEnd j i ok | ECallback j => OCallback j | EWait j r => OWait j r
+  | EStopCall => OStopCall | EStopRet => OStopRet | ESeenShut => OSeenShut
+  end.
+
+(* the configuration of the LTS for a case: task ids are given in the order of the Go calls, so the k-th EGo of
+   the trace names the task whose outcome is c_fail k *)
+Definition go_fails (jobs : list (list bool)) (evs : list ev) : list bool :=
+  flat_map (fun e => match e with EGo j i => [nth i (nth j jobs []) false] | _ => [] end) evs.
+Definition cfg_of (c : case) : cfg :=
+  let gf := go_fails (c_jobs c) (c_evs c) in mkC (c_nw c) (c_mj c) (fun t => nth t gf false) true.
+
+Definition lts_accepts (c : case) : bool :=
+  c_serial c || accepts (cfg_of c) (map to_oev (c_evs c)).
+
+Definition check_case (c : case) : bool := check_stmts c && lts_accepts c.
 
 Definition spec_ok (c : case) : bool :=
   let nj := length (c_jobs c) in
@@ -193,8 +218,20 @@ Definition spec_ok (c : case) : bool :=
 Definition selftest_good : case :=
   mk 2 false [[false]; [false]]
      [ENewCall 0; ENew 0 true; EGo 0 0; EDoneCall 0; ENewCall 1; ENew 1 true; EGo 1 0; EDoneCall 1;
-      EBeg 0 0; EEnd 0 0 true; EBeg 1 0; EWait 0 0%N; EEnd 1 0 true; EWait 1 0%N] false.
+      EBeg 0 0; EEnd 0 0 true; EBeg 1 0; EWait 0 0%N; EEnd 1 0 true; EWait 1 0%N] false 4.
 Definition selftest_bad : case :=
   mk 2 false [[false]; [false]]
      [ENewCall 0; ENew 0 true; EGo 0 0; EDoneCall 0; ENewCall 1; ENew 1 true; EGo 1 0; EDoneCall 1;
-      EBeg 0 0; EBeg 1 0; EEnd 0 0 true; EWait 0 0%N; EEnd 1 0 true; EWait 1 0%N] false.
+      EBeg 0 0; EBeg 1 0; EEnd 0 0 true; EWait 0 0%N; EEnd 1 0 true; EWait 1 0%N] false 4.
+
+(* a trace that satisfies every statement of [check_stmts] but is not a trace of the LTS: with a queue of capacity
+   one, NewJob of a third job returned while the first job was still running (the queue goroutine holds job 0,
+   job 1 fills the queue, so NewJob 2 has to wait until job 0 completed) *)
+Definition selftest_outside : case :=
+  mk 2 false [[false]; []; []]
+     [ENewCall 0; ENew 0 true; EGo 0 0; EDoneCall 0; EBeg 0 0; ENewCall 1; ENew 1 true; EDoneCall 1;
+      ENewCall 2; ENew 2 true; EDoneCall 2; EEnd 0 0 true; EWait 0 0%N; EWait 1 0%N; EWait 2 0%N] false 1.
+Definition selftest_inside : case :=
+  mk 2 false [[false]; []; []]
+     [ENewCall 0; ENew 0 true; EGo 0 0; EDoneCall 0; EBeg 0 0; ENewCall 1; ENew 1 true; EDoneCall 1;
+      ENewCall 2; EEnd 0 0 true; ENew 2 true; EDoneCall 2; EWait 0 0%N; EWait 1 0%N; EWait 2 0%N] false 1.
